@@ -1,0 +1,139 @@
+//go:build verif
+
+package fzf
+
+// Verification hooks (build tag verif) for chunklist.go, cache.go, pattern.go (Match),
+// merger.go and matcher.go: thin exported wrappers and read-only accessors. No logic.
+
+import (
+	"github.com/junegunn/fzf/src/algo"
+	"github.com/junegunn/fzf/src/util"
+)
+
+// VerifInitSearchEnv sets the process-wide tables the matcher depends on, as ParseOptions/Run do.
+func VerifInitSearchEnv() {
+	algo.Init("default")
+	sortCriteria = []criterion{byScore, byLength}
+}
+
+// VerifItemBuilder is the ItemBuilder of core.go reduced to text + running index;
+// lines beginning with '!' are rejected (the builder returns false, like header lines).
+func VerifItemBuilder(next *int32) ItemBuilder {
+	return func(item *Item, data []byte) bool {
+		if len(data) > 0 && data[0] == '!' {
+			return false
+		}
+		item.text = util.ToChars(data)
+		item.text.Index = *next
+		*next++
+		return true
+	}
+}
+
+// ---- chunks ----
+
+func VerifCellCount(c *Chunk) int { return c.count }
+func VerifCellItem(c *Chunk, i int) *Item {
+	return &c.items[i]
+}
+func VerifItemText(it *Item) string { return it.text.ToString() }
+func VerifItemIndex(it *Item) int32 { return it.Index() }
+
+// VerifListChunks returns the chunks currently held by the list itself (not a snapshot).
+func VerifListChunks(cl *ChunkList) []*Chunk {
+	cl.mutex.Lock()
+	defer cl.mutex.Unlock()
+	ret := make([]*Chunk, len(cl.chunks))
+	copy(ret, cl.chunks)
+	return ret
+}
+
+// VerifMakeChunk builds a free-standing chunk with `count` items indexed from first.
+func VerifMakeChunk(count int, first int32) *Chunk {
+	c := &Chunk{count: count}
+	for i := 0; i < count; i++ {
+		c.items[i].text = util.ToChars([]byte{})
+		c.items[i].text.Index = first + int32(i)
+	}
+	return c
+}
+
+// ---- results / cache ----
+
+func VerifMakeResult(it *Item) Result          { return Result{item: it} }
+func VerifResultIndex(r Result) int32          { return r.item.Index() }
+func VerifResultItem(r Result) *Item           { return r.item }
+func VerifRetire(cc *ChunkCache, cs ...*Chunk) { cc.retire(cs...) }
+func VerifResultKey(r Result) uint64 {
+	return uint64(r.points[3])<<48 | uint64(r.points[2])<<32 | uint64(r.points[1])<<16 | uint64(r.points[0])
+}
+
+// ---- patterns ----
+
+func VerifBuildSearchPattern(cache *ChunkCache, patternCache map[string]*Pattern, fuzzy bool, extended bool,
+	caseMode Case, normalize bool, forward bool, withPos bool, cacheable bool, nth int, major int, minor int, runes []rune) *Pattern {
+	ranges := []Range{}
+	if nth > 0 {
+		ranges = []Range{{nth, nth}}
+	}
+	return BuildPattern(cache, patternCache, fuzzy, algo.FuzzyMatchV2, extended, caseMode, normalize, forward,
+		withPos, cacheable, ranges, Delimiter{}, revision{major, minor}, runes, nil)
+}
+
+func VerifPatternGen(p *Pattern) int { return p.cacheGen }
+
+func VerifPatternInfo(p *Pattern) (text string, cacheKey string, cacheable bool, sortable bool, empty bool) {
+	return p.AsString(), p.CacheKey(), p.cacheable, p.sortable, p.IsEmpty()
+}
+
+// VerifMatchItemKey matches one item without any cache and returns the packed rank key.
+func VerifMatchItemKey(p *Pattern, it *Item, slab *util.Slab) (bool, uint64) {
+	res, _, _ := p.MatchItem(it, p.withPos, slab)
+	if res == nil {
+		return false, 0
+	}
+	return true, VerifResultKey(*res)
+}
+
+func VerifPatternMatchChunk(p *Pattern, c *Chunk, slab *util.Slab) []Result { return p.Match(c, slab) }
+
+// ---- merger ----
+
+func VerifMergerFinal(mg *Merger) bool          { return mg.final }
+func VerifMergerRevision(mg *Merger) (int, int) { return mg.revision.major, mg.revision.minor }
+func VerifMergerPattern(mg *Merger) *Pattern    { return mg.pattern }
+
+// ---- matcher ----
+
+func VerifNewMatcher(cache *ChunkCache, patternBuilder func([]rune) *Pattern, sort bool, tac bool,
+	eventBox *util.EventBox, major int, minor int, partitions int) *Matcher {
+	m := NewMatcher(cache, patternBuilder, sort, tac, eventBox, revision{major, minor})
+	if partitions > 0 {
+		m.partitions = partitions
+		m.slab = make([]*util.Slab, partitions)
+	}
+	return m
+}
+
+func (m *Matcher) VerifReset(chunks []*Chunk, runes []rune, cancel bool, final bool, sort bool, major int, minor int) {
+	m.Reset(chunks, runes, cancel, final, sort, revision{major, minor})
+}
+
+func (m *Matcher) VerifPartitions() int { return m.partitions }
+
+func (m *Matcher) VerifSliceChunks(chunks []*Chunk) [][]*Chunk { return m.sliceChunks(chunks) }
+
+// VerifPostReset puts a reqReset event into the request box (what Reset(cancel=true) does).
+func (m *Matcher) VerifPostReset() { m.reqBox.Set(reqReset, MatchRequest{}) }
+
+// VerifDrainBox empties the request box.
+func (m *Matcher) VerifDrainBox() {
+	m.reqBox.Wait(func(events *util.Events) { events.Clear() })
+}
+
+// VerifScan calls scan directly with the matcher's sort flag set from the request, as Loop does.
+func (m *Matcher) VerifScan(chunks []*Chunk, pattern *Pattern, final bool, sort bool, major int, minor int) (*Merger, bool) {
+	m.sort = sort
+	m.revision = revision{major, minor}
+	return m.scan(MatchRequest{chunks: chunks, pattern: pattern, final: final, sort: sort, revision: revision{major, minor}})
+}
